@@ -29,6 +29,7 @@ CONSTANTS
     Async,       \* snapshot.AsynchronousRemove
     AnyOrder,    \* TRUE: orphan directories are reclaimed in any (readdir) order; FALSE: ascending (generation)
     UnmountFaults, \* TRUE: a backend Unmount that hits a live mount may fail
+    InitCommitted, \* TRUE: start with one committed remote snapshot c1 (id 1, mounted) instead of an empty root
     SurviveModes,  \* subset of BOOLEAN: may the backend (fuse manager) survive a crash of the snapshotter?
     \* negative controls: TRUE = what the code does
     LabelOnlyIfMounted,  \* Prepare commits the target as remote only after a successful backend Mount
@@ -97,9 +98,17 @@ InOp(n) == up = "up" /\ op.name = n
 Creating == op.name \in {"Prepare", "View"}
 
 ----------------------------------------------------------------------------
+\* the initial state: an empty root, or (InitCommitted) what Prepare(k1, "", target c1) with a successful backend Mount
+\* leaves behind - the database is then no longer virgin
+InitMeta == [n \in Names |-> IF InitCommitted /\ n = "c1"
+                                THEN [id |-> 1, kind |-> "committed", parent |-> "", remote |-> TRUE, ref |-> "c1", u |-> 0]
+                                ELSE NoRec]
+InitSeq == IF InitCommitted THEN 1 ELSE 0
+InitDirs == IF InitCommitted THEN {1} ELSE {}
+InitMounts == IF InitCommitted THEN <<[d |-> 1, ref |-> "c1", u |-> 0]>> ELSE <<>>
 Init ==
-    /\ meta = [n \in Names |-> NoRec] /\ seq = 0 /\ dirs = {} /\ tmps = 0
-    /\ mounts = <<>> /\ stale = {} /\ up = "up" /\ bsurv = FALSE
+    /\ meta = InitMeta /\ seq = InitSeq /\ dirs = InitDirs /\ tmps = 0
+    /\ mounts = InitMounts /\ stale = {} /\ up = "up" /\ bsurv = FALSE
     /\ op = IdleOp /\ nops = 0 /\ nrs = 0
     /\ last = [act |-> "Init"]
 
